@@ -35,6 +35,13 @@ def t1_format(sx, hr, size, prefix, rsv, oldlens, wipe):
     return ndefflow.formatflow(sx, w, wipe)
 
 
+def t3_write(sx, nbr, nbw, nmaxb, oldlens, lens, emulated):
+    oldlen = sx.pick("oldlen", oldlens)
+    w = worlds.T3World(sx, nbr, nbw, nmaxb, oldlen, emulated=emulated)
+    n = sx.pick("n", [x for x in lens_for(w.cap, lens) if x <= w.cap])
+    return ndefflow.roundtrip(sx, w, n, prop="C03")
+
+
 T1 = [("topaz", (0x11, 0x48), 120, "", []),
       ("static", (0x11, 0x00), 120, "N", []),
       ("static-m", (0x11, 0x48), 120, "M", [(40, 8)]),
@@ -60,6 +67,12 @@ def partitions(tier):
                                           lens=[3, 254, 255, "cap"], long=True)))
             parts.append(dict(name="t2:%d:%s:format" % (S, prefix or "-"), fn="t2_format",
                               params=dict(S=S, prefix=prefix, rsv=rsv, oldlens=[0, 255], wipe=1)))
+    for emulated in (False, True):
+        for nbr, nbw, nmaxb in [(1, 1, 1), (4, 3, 5), (15, 13, 14), (3, 2, 4)]:
+            parts.append(dict(name="t3%s:%d:%d:%d:write" % ("emu" if emulated else "", nbr, nbw, nmaxb),
+                              fn="t3_write", params=dict(nbr=nbr, nbw=nbw, nmaxb=nmaxb, oldlens=[0, 17],
+                                                         lens=[0, 1, 16, 17, "cap-1", "cap"],
+                                                         emulated=emulated)))
     for name, hr, size, prefix, rsv in T1:
         lens = [0, 1, 5, "cap-1", "cap"] if size == 120 else [0, 3, 254, 255, "cap"]
         parts.append(dict(name="t1:%s:write" % name, fn="t1_write",
